@@ -6,6 +6,7 @@ for d in seeded/C*/; do
   n=$(basename $d)
   props=$(python3 -c "import json,sys;print(' '.join(json.load(open('$d/meta.json'))['ran'].split()[2:]))")
   first=$(echo $props | cut -d' ' -f1)
+  if ! git -C /repo apply --check /verif/$d/patch.diff 2>/dev/null; then echo "DOES-NOT-APPLY $n (rebase it onto the current /repo)"; continue; fi
   out=$(tools/try_patch.sh $d/patch.diff $first 2>&1)
   if echo "$out" | grep -q "VIOLATION property=$first"; then echo "DETECTED $n by $first $(echo "$out" | grep -c no-failing-input-found | sed 's/^0$//;s/^1$/(no-failing-input-found)/')"; else echo "MISSED   $n by $first"; fi
 done
